@@ -664,6 +664,9 @@ func (m *bmodel) apply(o *bop) (e expect) {
 	case boBufLen:
 		e.outcomes = okVal(jNum(float64(b.blen())))
 
+	case boKey:
+		m.applyKey(o, v, &e)
+
 	case boHostDetach:
 		b.detached = true
 
